@@ -21,6 +21,7 @@ public:
     const char *opName(int k) { return mtOpName(k); }
     int quickRuns() { return 800; }
     int recheckEvery() { return 5; }
+    bool verdictMayFlicker() { return true; }
     int quickSeconds() { return 90; }
     int thoroughSeconds() { return 900; }
     int cpuBudgetSec() { return 120; }
@@ -118,7 +119,7 @@ public:
         }
         // one class per run: the alphabetically first racing location that is not a recorded known finding (so a new race is
         // never shadowed by a known one), else the first known one. Report de-duplication is off, so this is a function of the plan.
-        for(std::map<std::string, std::string>::iterator it = found.begin(); it != found.end(); ++it) { run.log.add(hashStr(it->first.c_str())); run.count("race_reports_from_library"); }
+        for(std::map<std::string, std::string>::iterator it = found.begin(); it != found.end(); ++it) { run.count("race_reports_from_library"); }   // (not part of the event log: TSan may miss in one execution what it reported in another)
         if(const char *dump = getenv("VERIF_C14_DUMP")) { FILE *f = __real_fopen(dump, "a"); if(f) { for(std::map<std::string, std::string>::iterator it = found.begin(); it != found.end(); ++it) fprintf(f, "%s\t%s\n", it->first.c_str(), it->second.c_str()); __real_fclose(f); } }
         if(!found.empty())
         {
